@@ -82,7 +82,7 @@ func c13Model(e *model.Eff, body *hclsyntax.Body, parent []lang.SemanticTokenMod
 			}
 			*toks = append(*toks, expTok{lang.TokenBlockLabel, modSet(bm, bs.Labels[i].SemanticTokenModifiers), lr})
 		}
-		if bs.Body == nil {
+		if bs.Body == nil && len(bs.DependentBody) == 0 {
 			// no body schema: everything inside is unknown
 			if b.Body != nil && b.Body.SrcRange.End.Byte > b.Body.SrcRange.Start.Byte {
 				for _, a := range b.Body.Attributes {
